@@ -469,6 +469,83 @@ def blackbox_histories(ctx):
                                'kept': got_seq.count('save'), 'of': n})
 
 
+def shared_parameters_object(ctx):
+    """One RecordingParameters object (the service's DEFAULTS) is handed to several class registrations, some of them with extra
+    keywords; classes are registered while others are already in use (a lazily loaded plugin). The policy of a class is what it was
+    registered with; registering another class does not change it, and the caller's object is not modified."""
+    from playback.tape_recorder import TapeRecorder, RecordingParameters
+    from vlib import genclasses
+    from vlib.spies import SpyRandom
+    for variant, extra in enumerate([dict(skipped=True), dict(sampling_rate=0.0), dict(ignore_enforced_sampling=True), {}]):
+        with open_box('memory') as box:
+            spy = SpyCassette(box.cassette)
+            rec = TapeRecorder(spy)
+            rec._random = SpyRandom(17 + variant)
+            rec.enable_recording()
+            defaults = RecordingParameters(sampling_rate=0.3)
+            before = dict(vars(defaults))
+
+            def make(name):
+                return genclasses.register(type(name, (object,), {'execute': rec.operation()(lambda self, force: (rec.force_sample_recording() if force else None, 5)[1])}))
+            orders = rec.recording_params(defaults)(make('SharedOrders%d' % variant))
+            got, exp = [], []
+
+            def run(cls, n, force=False):
+                for i in range(n):
+                    n0, d0 = len(spy.log), len(rec._random.draws)
+                    cls().execute(force)
+                    ev = [e[0] for e in spy.log[n0:] if e[0] in ('create', 'save', 'abort')]
+                    got.append({('create', 'save'): 'save', ('create', 'abort'): 'abort', (): 'none'}.get(tuple(ev), 'other:' + ','.join(ev)))
+                    used = rec._random.draws[d0:]
+                    exp.append(ref_keep(False, False, force, False, 0.3, used[0] if used else None))
+            run(orders, 12)
+            run(orders, 3, force=True)
+            plugin = rec.recording_params(defaults, **extra)(make('SharedPlugin%d' % variant))       # registered later, same object (+ keywords)
+            plugin().execute(False)
+            run(orders, 12)
+            run(orders, 3, force=True)
+            w = {'shared_parameters_object': True, 'keywords_of_the_later_registration': sorted(extra)}
+            ctx.case(w)
+            ctx.count('decisions_compared', len(got))
+            ctx.count('shared_parameters_histories')
+            if got != exp:
+                i = next(i for i, (a, b) in enumerate(zip(got, exp)) if a != b)
+                ctx.violation('decisions of a class changed when ANOTHER class was registered with the same parameters object (decision %d: %r, policy %r)' % (i, got[i], exp[i]),
+                              dict(w, kept=got.count('save'), expected_kept=exp.count('save')))
+            if dict(vars(defaults)) != before:
+                ctx.violation('the caller\'s RecordingParameters object was modified by a registration', dict(w, before=repr(before), after=repr(vars(defaults))))
+
+
+def redundant_enable(ctx):
+    """enable_recording() called again while it is already enabled and an operation is in flight (a settings sync that becomes due
+    mid-request): an idempotent call, the decision for the operation in flight is what the policy says."""
+    idx = 0
+    for rate, forcing, discard, draw, step in itertools.product([0, 0.3, 1], ['none', 'op'], ['none', 'after'], [0.1, 0.9], [0, 1, 2, 3]):
+        if rate == 1 and draw != 0.1:
+            continue
+        idx += 1
+        if not ctx.mine(idx):
+            continue
+        faults = {('main', step): 'reenable'}
+        if forcing == 'op' and step != 1:
+            faults[('main', 1)] = 'force'
+        if discard == 'after' and step != 2:
+            faults[('main', 2)] = 'discard'
+        forced, discarded = ('main', 1) in faults and faults[('main', 1)] == 'force', ('main', 2) in faults and faults[('main', 2)] == 'discard'
+        row = {'redundant_enable_at_step': step, 'rate': rate, 'forced': forced, 'discard': discarded, 'draw': draw}
+        res = fr.execute(table_prog('return'), faults, rate=rate, scripted_draws=[draw], with_twin=False)
+        try:
+            ctx.case(row)
+            got = observe(res)
+            used = res.draws
+            exp = ref_keep(False, discarded, forced, False, rate, used[0] if used else draw)
+            ctx.count('decisions_with_a_redundant_enable')
+            if got != exp:
+                ctx.violation('decision %r differs from the policy (%r) when enable_recording() is called again mid-operation' % (got, exp), {'row': row, 'draws': used})
+        finally:
+            fr.close(res)
+
+
 def explicit_scopes(ctx):
     """The public recording scope opened directly (``with recorder.start_recording(category, {OPERATION_CLASS: cls})``) instead of through
     the operation decorator: the parameters registered for the class named in the metadata decide, exactly as for decorated operations."""
@@ -674,6 +751,9 @@ def run(ctx):
     from playback.tape_cassettes.s3.s3_tape_cassette import S3TapeCassette
     env.anchor(S3TapeCassette, '_should_sample')
     table(ctx)
+    if ctx.shard == 0:
+        shared_parameters_object(ctx)
+    redundant_enable(ctx)
     explicit_scopes(ctx)
     histories(ctx)
     if ctx.shard == 0:
@@ -688,6 +768,10 @@ def run(ctx):
 
 
 def replay(ctx, w):
+    if w.get('shared_parameters_object'):
+        return shared_parameters_object(ctx)
+    if isinstance(w.get('row'), dict) and 'redundant_enable_at_step' in w['row']:
+        return redundant_enable(ctx)
     if isinstance(w.get('row'), dict) and w['row'].get('explicit_scope'):
         return explicit_scopes(ctx)
     table(ctx)
